@@ -60,6 +60,10 @@ func originDescribe(p *Prog, o Origin) string {
 	return "other:" + o.Val.Name()
 }
 
+// wireChain is the call chain of the site being evaluated (nested receiver /
+// argument specs resolve helper parameters through it).
+var wireChain []ssa.CallInstruction
+
 func originMatches(p *Prog, o Origin, spec string, depth int) bool {
 	if depth > 4 {
 		return false
@@ -109,7 +113,7 @@ func originMatches(p *Prog, o Origin, spec string, depth int) bool {
 		if !ok || b.Name() != "len" {
 			return false
 		}
-		for _, ao := range Origins(cc.Args[0], OriginOpts{}) {
+		for _, ao := range originsThrough(cc.Args[0], wireChain, OriginOpts{}) {
 			if !originMatches(p, ao, "field:"+spec[len("len:"):], depth+1) {
 				return false
 			}
@@ -153,7 +157,7 @@ func originMatches(p *Prog, o Origin, spec string, depth int) bool {
 		if v == nil {
 			return false
 		}
-		for _, ao := range Origins(v, OriginOpts{}) {
+		for _, ao := range originsThrough(v, wireChain, OriginOpts{}) {
 			if !originMatches(p, ao, inner, depth+1) {
 				return false
 			}
@@ -161,6 +165,63 @@ func originMatches(p *Prog, o Origin, spec string, depth int) bool {
 		return true
 	}
 	return false
+}
+
+// scopedFn is a function reached from an anchor function through a chain of
+// static same-package calls (the helpers a long function may be split into).
+type scopedFn struct {
+	fn    *ssa.Function
+	chain []ssa.CallInstruction
+}
+
+func helperScope(fn *ssa.Function, maxDepth int) []scopedFn {
+	out := []scopedFn{{fn: fn}}
+	seen := map[*ssa.Function]bool{fn: true}
+	for i := 0; i < len(out) && len(out) < 40; i++ {
+		cur := out[i]
+		if len(cur.chain) >= maxDepth {
+			continue
+		}
+		allCalls(cur.fn, true, func(in *ssa.Function, call ssa.CallInstruction) {
+			if in != cur.fn {
+				return // calls made from closures cannot be mapped to parameters
+			}
+			sc := call.Common().StaticCallee()
+			if sc == nil || !inModule(sc) || sc.Blocks == nil || fnPkg(sc) != fnPkg(fn) || seen[sc] {
+				return
+			}
+			seen[sc] = true
+			chain := append(append([]ssa.CallInstruction{}, cur.chain...), call)
+			out = append(out, scopedFn{fn: sc, chain: chain})
+		})
+	}
+	return out
+}
+
+// originsThrough is Origins with the parameters of a helper resolved to the
+// arguments at the call that leads to it.
+func originsThrough(v ssa.Value, chain []ssa.CallInstruction, opts OriginOpts) []Origin {
+	var out []Origin
+	for _, o := range Origins(v, opts) {
+		if o.Kind != OrgParam || len(chain) == 0 {
+			out = append(out, o)
+			continue
+		}
+		call := chain[len(chain)-1]
+		callee := call.Common().StaticCallee()
+		idx := -1
+		for i, par := range callee.Params {
+			if ssa.Value(par) == o.Val {
+				idx = i
+			}
+		}
+		if idx < 0 || idx >= len(call.Common().Args) {
+			out = append(out, o)
+			continue
+		}
+		out = append(out, originsThrough(call.Common().Args[idx], chain[:len(chain)-1], opts)...)
+	}
+	return out
 }
 
 func runWire(c *Ctx, rule string, w wireSpec) {
@@ -171,10 +232,12 @@ func runWire(c *Ctx, rule string, w wireSpec) {
 	}
 	fn := p.SSAFunc(obj)
 	type site struct {
-		val ssa.Value
-		pos token.Pos
+		val   ssa.Value
+		pos   token.Pos
+		chain []ssa.CallInstruction
 	}
 	var sites []site
+	var curChain []ssa.CallInstruction
 	visit := func(f *ssa.Function) {
 		switch {
 		case strings.HasPrefix(w.Sink, "field:"):
@@ -189,7 +252,7 @@ func runWire(c *Ctx, rule string, w wireSpec) {
 					return
 				}
 				if p.FieldName(fields[len(fields)-1]) == want {
-					sites = append(sites, site{st.Val, st.Pos()})
+					sites = append(sites, site{st.Val, st.Pos(), curChain})
 				}
 			})
 		case strings.HasPrefix(w.Sink, "call:"):
@@ -210,7 +273,7 @@ func runWire(c *Ctx, rule string, w wireSpec) {
 					args = args[1:]
 				}
 				if ai < len(args) {
-					sites = append(sites, site{args[ai], call.Pos()})
+					sites = append(sites, site{args[ai], call.Pos(), curChain})
 				}
 			})
 		}
@@ -218,6 +281,14 @@ func runWire(c *Ctx, rule string, w wireSpec) {
 	visit(fn)
 	for _, a := range fn.AnonFuncs {
 		visit(a)
+	}
+	if len(sites) == 0 {
+		// the construct may have been moved into a helper of the function
+		for _, sf := range helperScope(fn, 2)[1:] {
+			curChain = sf.chain
+			visit(sf.fn)
+		}
+		curChain = nil
 	}
 	key := w.Fn + ": " + w.Sink
 	if len(sites) == 0 {
@@ -231,7 +302,8 @@ func runWire(c *Ctx, rule string, w wireSpec) {
 		}
 		var bad []string
 		seenReq := map[string]bool{}
-		for _, o := range Origins(s.val, OriginOpts{ThroughBinOp: w.Through}) {
+		wireChain = s.chain
+		for _, o := range originsThrough(s.val, s.chain, OriginOpts{ThroughBinOp: w.Through}) {
 			ok := false
 			for _, a := range w.Allowed {
 				if originMatches(p, o, a, 0) {
@@ -252,6 +324,7 @@ func runWire(c *Ctx, rule string, w wireSpec) {
 				bad = append(bad, "missing "+r)
 			}
 		}
+		wireChain = nil
 		sort.Strings(bad)
 		c.Check(rule, k, s.pos, len(bad) == 0, "value wired into "+w.Sink+" in "+w.Fn+" derives from {"+strings.Join(bad, ", ")+"}; allowed sources are {"+strings.Join(w.Allowed, ", ")+"}")
 	}
@@ -261,6 +334,14 @@ func runWire(c *Ctx, rule string, w wireSpec) {
 // `callee(args…) <op> 0` whose first argument derives from wantArg0 and that
 // op equals wantOp (token.GTR for "replace max when greater", token.LSS for min).
 func comparisonGuard(p *Prog, fn *ssa.Function, callee string, arg0Spec string) (ops []token.Token) {
+	for _, sf := range helperScope(fn, 2) {
+		ops = append(ops, comparisonGuardIn(p, sf, callee, arg0Spec)...)
+	}
+	return ops
+}
+
+func comparisonGuardIn(p *Prog, sf scopedFn, callee string, arg0Spec string) (ops []token.Token) {
+	fn := sf.fn
 	allInstrs(fn, false, func(_ *ssa.Function, ins ssa.Instruction) {
 		bo, ok := ins.(*ssa.BinOp)
 		if !ok {
@@ -298,7 +379,9 @@ func comparisonGuard(p *Prog, fn *ssa.Function, callee string, arg0Spec string) 
 		if len(args) == 0 {
 			return
 		}
-		for _, o := range Origins(args[0], OriginOpts{}) {
+		wireChain = sf.chain
+		defer func() { wireChain = nil }()
+		for _, o := range originsThrough(args[0], sf.chain, OriginOpts{}) {
 			if !originMatches(p, o, arg0Spec, 0) {
 				return
 			}
